@@ -203,10 +203,14 @@ def run(ctx):
     buffermodel.model_check(ctx)
     q = ctx.tier == 'quick'
 
+    executed = []
+
     def go(scs, fam):
         for off in range(0, len(scs), 6000):
-            ctx.run_and_validate(DRIVER, COMP, TRACE, scs[off:off + 6000], fam, nontrivial=nontrivial,
-                                 known_match=known_match)
+            out = ctx.run_and_validate(DRIVER, COMP, TRACE, scs[off:off + 6000], fam, nontrivial=nontrivial,
+                                       known_match=known_match)
+            if len(executed) < 4000:
+                executed.extend(out[:2000])
 
     if ctx.prop == 'C08':
         go(c08_grid(ctx.tier), 'arrival_grid')
@@ -220,6 +224,10 @@ def run(ctx):
         go(fam_programs(rng, 2000 if q else 30000, 5 if q else 7, 3), 'programs_with_waits')
         go(fam_programs(rng, 1200 if q else 20000, 4, 1, shutdown=True), 'shutdown_instants')
         go(fam_foreign(rng, 500 if q else 12000), 'foreign_threads')
+    if ctx.prop == 'C07':      # make sure some plain-call-plus-wait programs are in the conformance sample
+        go(fam_programs(rng, 200 if q else 2000, 4, 2, imm_only=True), 'imm_programs_with_waits')
+    # implementation conformance: a sample of the recorded executions against the timed model itself
+    buffermodel.conformance(ctx, executed, limit=40 if q else 400)
     return ctx.finish(
         rule='timed programs in virtual time: submissions (plain / awaitable / sync iterable incl. worker-thread '
              'iterators / async iterable, producer delays and failures at any position) with gaps on the grid '
